@@ -128,6 +128,10 @@ class ShuffleBase(Expr):
                     parent.operand("columns")
                 ]
 
+        if isinstance(self, PartitionsFiltered) and self._filtered:
+            # only some of the shuffled partitions are selected: a reduction
+            # of them is not the reduction of the whole input
+            return
         if isinstance(
             parent,
             (
